@@ -83,7 +83,7 @@ JQ(x) == [ qProto  |-> ToSet(x.qProto),
            isAct   |-> ToSet(x.isAct),
            qParams |-> x.qParams, qParamsOk |-> x.qParamsOk ]
 
-DummyX == [exportOk |-> TRUE, validateOk |-> TRUE, initOk |-> TRUE, sameExport |-> TRUE, fullOk |-> TRUE]
+DummyX == [exportOk |-> TRUE, validateOk |-> TRUE, initOk |-> TRUE, sameExport |-> TRUE, fullOk |-> TRUE, sameBeh |-> TRUE]
 
 ToStep(ev) ==
   LET pre == JSt(ev.pre)  post == JSt(ev.post)
@@ -111,7 +111,7 @@ ToStep(ev) ==
        q |-> IF ev.in.t = "admin" THEN JQ(ev.obs.x) ELSE QueryView(post),
        x |-> IF ev.in.t = "reimport"
              THEN [exportOk |-> ev.obs.x.exportOk, validateOk |-> ev.obs.x.validateOk, initOk |-> ev.obs.x.initOk,
-                   sameExport |-> ev.obs.x.sameExport, fullOk |-> ev.obs.x.fullOk]
+                   sameExport |-> ev.obs.x.sameExport, fullOk |-> ev.obs.x.fullOk, sameBeh |-> ev.obs.x.sameBeh]
              ELSE DummyX,
        hasBig |-> HasX(ev, "big"),
        big |-> IF HasX(ev, "big") THEN ev.obs.x.big ELSE [esc |-> <<0>>, orb |-> <<0>>, dust |-> <<0>>, F1 |-> <<0>>, F2 |-> <<0>>, U |-> <<0>>],
